@@ -356,7 +356,7 @@ class QubitCircuit:
                     circuit_op.name,
                     targets=tar,
                     controls=ctrl,
-                    arg_value=circuit_op.arg_value,
+                    arg_value=deepcopy(circuit_op.arg_value),
                 )
             elif isinstance(circuit_op, Measurement):
                 self.add_measurement(
@@ -440,8 +440,8 @@ class QubitCircuit:
             self.N,
             reverse_states=self.reverse_states,
             num_cbits=self.num_cbits,
-            input_states=self.input_states,
-            output_states=self.output_states,
+            input_states=list(self.input_states),
+            output_states=list(self.output_states),
         )
 
         for circuit_op in reversed(self.gates):
@@ -449,6 +449,9 @@ class QubitCircuit:
                 temp.add_gate(circuit_op)
             else:
                 temp.add_measurement(circuit_op)
+
+        # The reversed circuit must not share gate objects with this one.
+        temp.gates = deepcopy(temp.gates)
 
         return temp
 
